@@ -1,5 +1,6 @@
 """C13 - undo restores the previous session state and redo restores the undone one."""
 PROPERTY = 'C13'
+THOROUGH_SEEDS = 1      # the thorough enumeration of this driver is already minutes long
 LEVEL = 'proof'
 DEDUCTIVE = ['contracts.c13_command']
 BUDGET_S = {'quick': 30.0, 'thorough': 90.0}
